@@ -634,5 +634,6 @@ func runC09(h *H) {
 	for i := 0; i < S; i++ {
 		h.DoRisky("conc.stress", strconv.FormatUint(h.U64(), 10), procs[i%len(procs)], strconv.Itoa(4+h.Intn(28)), strconv.Itoa(2+h.Intn(12)))
 	}
-	runC09Hist(h) // c09hist.go: history independence of codec construction
+	runC09Hist(h)           // c09hist.go: history independence of codec construction
+	runC09HistErr(h, "C09") // c09histerr.go: histories with failing calls, damaged and sparse inputs, reused objects
 }
